@@ -302,7 +302,9 @@ func (o *FilterOptimizer) optimizePrefixMatchExpr(e *BinaryOpExpr) *ScanType {
 
 	switch left := e.Left.(type) {
 	case *StringExpr:
-		key = []byte(left.Data)
+		// 'lit' ^= key tests that key is a prefix of the literal,
+		// it does not bound the key by a prefix
+		return &ScanType{FULL, nil}
 	case *FieldExpr:
 		field = left.Field
 	}
